@@ -3,7 +3,7 @@
 # of /repo outside /repo and /verif, removed afterwards) and runs the quick
 # checks of the property it breaks plus the checks listed as catching it.
 tier=${1:-quick}; [ $# -gt 0 ] && shift
-ids="$@"; [ -z "$ids" ] && ids=$(ls /verif/seeded)
+ids="$@"; [ -z "$ids" ] && ids=$(cd /verif/seeded && ls -d */ | tr -d /)
 for id in $ids; do
   d=/tmp/seedrun/$id
   rm -rf $d; git -C /repo worktree prune
